@@ -5,4 +5,4 @@ CHECK_DEADLOCK FALSE
 CONSTRAINT Cover
 INVARIANT CheckAll
 PROPERTY P_D4_CoopCloseEntersQueue
-POSTCONDITION Post
+POSTCONDITION PostWrite
